@@ -6,6 +6,8 @@ check raises an alarm on them.
                                             line numbers, parenthesisation all change)
   refactor_variants.py <outdir> rename      additionally every function-local variable that is not part
                                             of the x/y or interval naming lexicons gets a new name
+  refactor_variants.py <outdir> extract     call arguments that read an attribute of a parameter / self are hoisted into a
+                                            fresh local first (values reach their uses through locals)
   refactor_variants.py <outdir> shift       a docstring-sized comment block is inserted at the top of
                                             every function (moves every line number)
 """
@@ -52,6 +54,55 @@ class Renamer(ast.NodeTransformer):
     visit_AsyncFunctionDef = visit_FunctionDef
 
 
+class Extractor(ast.NodeTransformer):
+    """`f(a.b, ..)` -> `_ex1 = a.b; f(_ex1, ..)` for call arguments that are attribute reads of a parameter /
+    self, in simple statements directly inside a function body or a block of it (behaviour preserving for
+    side-effect free properties; the point is the *shape* change: a value reaches its use through a local)."""
+
+    def __init__(self):
+        self.n = 0
+
+    def _hoist(self, st, params):
+        if not isinstance(st, (ast.Assign, ast.Return, ast.Expr, ast.AugAssign, ast.AnnAssign)):
+            return [st]
+        # no hoisting out of lambdas / comprehensions / conditional expressions / boolean operators
+        blocked = set()
+        for x in ast.walk(st):
+            if isinstance(x, (ast.Lambda, ast.ListComp, ast.SetComp, ast.DictComp, ast.GeneratorExp, ast.IfExp, ast.BoolOp)):
+                for y in ast.walk(x):
+                    blocked.add(id(y))
+        pre = []
+        for c in ast.walk(st):
+            if isinstance(c, ast.Call) and id(c) not in blocked:
+                for i, a in enumerate(c.args):
+                    if isinstance(a, ast.Attribute) and isinstance(a.value, ast.Name) and a.value.id in params and id(a) not in blocked and isinstance(a.ctx, ast.Load):
+                        self.n += 1
+                        nm = f"_ex{self.n}"
+                        pre.append(ast.Assign(targets=[ast.Name(id=nm, ctx=ast.Store())], value=a, lineno=st.lineno, col_offset=st.col_offset))
+                        c.args[i] = ast.Name(id=nm, ctx=ast.Load())
+                        break
+            if len(pre) >= 1:
+                break
+        return pre + [st]
+
+    def _block(self, body, params):
+        out = []
+        for st in body:
+            for fld in ("body", "orelse", "finalbody"):
+                if hasattr(st, fld) and isinstance(getattr(st, fld), list) and not isinstance(st, (ast.FunctionDef, ast.AsyncFunctionDef, ast.ClassDef)):
+                    setattr(st, fld, self._block(getattr(st, fld), params))
+            out.extend(self._hoist(st, params))
+        return out
+
+    def visit_FunctionDef(self, node):
+        self.generic_visit(node)
+        params = {a.arg for a in node.args.args + node.args.kwonlyargs}
+        # parameters re-bound in the body are not safe bases
+        rebound = {t.id for n in ast.walk(node) for t in ast.walk(n) if isinstance(t, ast.Name) and isinstance(t.ctx, ast.Store)}
+        node.body = self._block(node.body, params - rebound)
+        return node
+
+
 def main():
     out = Path(sys.argv[1])
     mode = sys.argv[2]
@@ -82,6 +133,9 @@ def main():
         else:
             if mode == "rename":
                 tree = Renamer().visit(tree)
+                ast.fix_missing_locations(tree)
+            if mode == "extract":
+                tree = Extractor().visit(tree)
                 ast.fix_missing_locations(tree)
             f.write_text(ast.unparse(tree) + "\n")
         n += 1
